@@ -225,4 +225,28 @@ def r6_read_text_goes_through_skip(ctx):
         o["site"] = "read_text:" + o["site"]
         o["rule"] = "R6"
 
-RULES = [("R1", r1_table), ("R2", r2_compare), ("R3", r3_push), ("R5", r5_options_during_skip), ("R6", r6_read_text_goes_through_skip)]
+def r7_synthetic_end(ctx):
+    """The End of an expanded `<x/>` is owed from the moment Start(x) was pushed: in state InsideEmpty the event loop
+    hands out close_expanded_empty() and nothing on the way can divert it (no test of an option that the user may have
+    changed in between, no assertion): otherwise `x` stays on the stack and later end tags are judged against it."""
+    import c03, panics
+    for cfg, F in ctx.facts.items():
+        vs = F.variants("reader::ParseState")
+        n = 0
+        for b in c03.loop_bodies(F):
+            nm = sym.short(strip_generics(b.path).replace("::{closure#0}", ""))
+            for p in ctx.paths(b, max_paths=60000):
+                idx = [i for i, e in enumerate(p) if e[0] == "switch" and e[2][0] == "discr" and ends_with_fields(e[2][1], "state", "state")]
+                if not idx or not isinstance(p[idx[0]][3], int) or vs[p[idx[0]][3]] != "InsideEmpty":
+                    continue
+                n += 1
+                close = [i for i, e in enumerate(p) if e[0] == "call" and name_is(e[2], "close_expanded_empty")]
+                between = [e for e in p[idx[0] + 1:(close[0] if close else len(p))] if e[0] == "switch" or (e[0] == "call" and panics.is_panicking(e[2]))]
+                r = ret_of(p)
+                ok = bool(close) and not between and ends(p) == "ret" and r is not None and has_subterm(r, lambda s2: call_is(s2, "close_expanded_empty"))
+                ctx.ob("R7", "%s:InsideEmpty" % nm, ok, "in state InsideEmpty the loop returns close_expanded_empty() unconditionally; on this path: %s" % (
+                    "no call" if not close else "diverted by %s" % [sym.show(e[2], 2)[:60] if e[0] == "switch" else sym.short(e[2]) for e in between] if between else "the result is not what is returned"), config=cfg)
+        ctx.floor("R7", "InsideEmpty paths of the event loop", n, 2 if "async-tokio" in F.features else 1, config=cfg)
+
+
+RULES = [("R1", r1_table), ("R2", r2_compare), ("R3", r3_push), ("R5", r5_options_during_skip), ("R6", r6_read_text_goes_through_skip), ("R7", r7_synthetic_end)]
